@@ -284,6 +284,7 @@ def run_protocols(F, ck):
                     y, ('%s %s at %s' % (tb.kind, tb.method, tb.loc)) if tb else 'nothing more'), (ta or tb).loc if (ta or tb) else None)
                 continue
             ck.ob('R04.3', key, True, '%d and %d events align' % (len(a), len(b)), trs[(proto, x)][2].file)
+            squeeze_counts(F, ck, proto, x, y, a, b, info)
             for which, t in info:
                 rk = (proto, '%s~%s' % (x, y), which, t.fn.name, sig(t))
                 reason = REVIEWED_SKIPS.get(rk)
@@ -408,6 +409,55 @@ def whole_absorptions(F, ck, trs):
         bad = _partial_in(f.body, only_root='self') if f.body is not None else []
         ck.ob('R04.6', 'encoder:%s' % f.qual, not bad, 'encodes the whole digest' if not bad else
               'LOSSY ENCODER: %s uses %s: part of the digest is dropped before absorption, so two different commitments produce the same challenges' % (f.qual, ','.join(bad)), '%s:%d' % (f.file, f.line))
+
+
+def _all_lets_env(E, fn):
+    from . import poly
+    env = {}
+    for s_ in walk(fn.body):
+        if s_.get('k') == 'Let' and 'i' in s_ and s_['p'].get('k') == 'Bind' and s_['p']['id'] not in env:
+            try:
+                env[s_['p']['id']] = E.ev(fn, s_['i'], env, 3)
+            except poly.Unknown as ex:
+                env[s_['p']['id']] = ex
+    return env
+
+
+def squeeze_counts(F, ck, proto, x, y, a, b, skipped):
+    """aligned plural squeezes draw the same NUMBER of challenges on both sides (count expressions normalised to polynomials over
+    type-qualified fields; a pair is compared only when both counts can be normalised)"""
+    from . import poly
+    E = poly.Ev(F)
+    skipA = {id(t) for w, t in skipped if w == 'A'}
+    skipB = {id(t) for w, t in skipped if w == 'B'}
+    ia = [t for t in a if id(t) not in skipA]
+    ib = [t for t in b if id(t) not in skipB]
+    envs = {}
+    n = 0
+    for ta, tb in zip(ia, ib):
+        if ta.kind != 'sq' or ta.method not in ('get_n_challenges', 'get_n_extension_challenges') or tb.method != ta.method:
+            continue
+        ps = []
+        for t in (ta, tb):
+            args = t.ev.node.get('a', [])
+            if not args:
+                ps.append(None)
+                continue
+            fn = t.fn
+            if fn.d not in envs:
+                envs[fn.d] = _all_lets_env(E, fn)
+            try:
+                ps.append(E.ev(fn, args[-1], envs[fn.d], 3))
+            except poly.Unknown:
+                ps.append(None)
+        if ps[0] is None or ps[1] is None:
+            continue
+        n += 1
+        ok = ps[0] == ps[1]
+        ck.ob('R04.3', 'count:%s:%s~%s:%s:%d' % (proto, x, y, ta.fn.name, n), ok, 'both sides draw %s challenges' % poly.show(ps[0]) if ok else
+              'CHALLENGE COUNT MISMATCH: %s draws %s challenges with %s at %s but its counterpart %s draws %s at %s: the two transcripts diverge from here on' %
+              (ta.fn.qual, poly.show(ps[0]), ta.method, ta.loc, tb.fn.qual, poly.show(ps[1]), tb.loc), ta.loc)
+    ck.notes.setdefault('R04.3 squeeze counts compared', {})['%s:%s~%s' % (proto, x, y)] = n
 
 
 def field_ops(fn, field):
